@@ -116,11 +116,12 @@ PROPS = {
         rule=("suites W-fide / R-fide: FeatureIDEWriter.transform() (returned bytes = file bytes; the file is parsed with "
               "ElementTree and compared as an element tree with the model's [fide_write], attribute order canonicalised), "
               "FeatureIDEReader on that file vs [fide_read] as pointer-annotated models; inputs: random models of the "
-              "FeatureIDE fragment (and / or / alt features, abstract flags, XML-special / non-ASCII / quoted names, zero or "
+              "FeatureIDE fragment (and / or / alt features, abstract flags, XML-special / non-ASCII / quoted names and names containing line breaks or tabs, zero or "
               "more constraints incl. single literals). oracle: names, tree, abstract flags identical, constraints pairwise "
               "equivalent by truth table, 4 cycles with byte-identical text from the second generation on"),
         assumptions=["ElementTree.tostring + minidom.toprettyxml + ElementTree.parse preserve tags, attributes, child order "
-                     "and the text of text-only elements for names without control characters (validated on every case)"],
+                     "and the text of text-only elements (validated on every case; names include line breaks and tabs, "
+                     "not carriage returns)"],
         trusted=["external: xml.etree.ElementTree, xml.dom.minidom"],
     ),
     "C08": dict(
@@ -197,7 +198,8 @@ PROPS = {
               "written from the format definitions (FeatureIDE: graphics / description elements, mandatory=\"false\", "
               "attribute order, n-ary conj/disj, constraints section absent; FaMa: tag letter case, cardinality position, "
               "binary vs set relations, relation names; AFM: attribute / constraint sections absent, redundant parentheses, AND under "
-              "OR without parentheses, plus documents with syntax errors that must raise; Glencoe: n-ary terms, extra keys) for random reference models, read by the implementation's readers and by the reader "
+              "OR without parentheses, a feature-scoped block between plain constraints, plus documents with syntax errors or with "
+              "text left over after a complete model, which must raise; Glencoe: n-ary terms, extra keys) for random reference models, read by the implementation's readers and by the reader "
               "models (pointer-annotated comparison); the shipped Betty / FaMa corpus files are read by both and checked "
               "against statistics computed independently from the XML (feature count, relation kinds, constraint kinds). "
               "oracle: the model read = the reference model the document was emitted from (tree, kinds, cardinalities, "
